@@ -67,11 +67,15 @@ def variants(kind):
     if kind == "select":
         return {
             "select": [lambda q, Q: q.select(t.a, Sum(t.b).as_("total")), lambda q, Q: q.select("a", "b"), lambda q, Q: q.select(t.star),
-                       lambda q, Q: q.select(t.a.as_("b"), t.b.as_("a"))],
+                       lambda q, Q: q.select(t.a.as_("b"), t.b.as_("a")),
+                       # clause keywords inside terms: a window's own ORDER BY, a string that quotes clause keywords
+                       lambda q, Q: q.select(t.a, r["an.RowNumber"]().over(t.b).orderby(t.a).as_("rn")),
+                       lambda q, Q: q.select(t.a, r["ValueWrapper"](" ORDER BY x LIMIT 1 OFFSET 2 GROUP BY WHERE ").as_("txt"))],
             "orderby": [lambda q, Q: q.orderby("total"), lambda q, Q: q.orderby("b"), lambda q, Q: q.orderby(Sum(t.b).as_("total")),
                         lambda q, Q: q.orderby(t.a, order=r["Order"].desc), lambda q, Q: q.orderby(sq(Q))],
             "groupby": [lambda q, Q: q.groupby("a"), lambda q, Q: q.groupby("total"), lambda q, Q: q.groupby(t.a.as_("total")), lambda q, Q: q.groupby(1), lambda q, Q: q.groupby(sq(Q))],
-            "where": [lambda q, Q: q.where(u.a > 1), lambda q, Q: q.where(t.id.isin(Q.from_(u).select(u.id)))],
+            "where": [lambda q, Q: q.where(u.a > 1), lambda q, Q: q.where(t.id.isin(Q.from_(u).select(u.id))),
+                      lambda q, Q: q.where(t.c == "see ORDER BY clause; FETCH NEXT 1 ROWS ONLY"), lambda q, Q: q.where(t.id.isin(Q.from_(u).select(u.id).orderby(u.id).limit(3)))],
             "join": [lambda q, Q: q.join(u).using("id"), lambda q, Q: q.left_join(u).on(t.id == u.id),
                      lambda q, Q: q.join(Q.from_(u).select(u.id).as_("s")).on_field("id")],
             "having": [lambda q, Q: q.having(Sum(t.b) > 3), lambda q, Q: q.having(Count(t.a) > sq(Q))],
@@ -485,6 +489,21 @@ def wellformed(kind, d, calls, sql, mon):
             if not (i_ > 0 and toks[i_ - 1].kind == "WORD" and toks[i_ - 1].value == "WITH"):
                 mon.violation("%s:recursive-not-after-with:%s" % (kind, fam), "RECURSIVE does not directly follow WITH: %r (calls %s)" % (sql[:240], calls))
                 return True
+    if fam == "mssql" and kind == "select":
+        depth_ = 0
+        seen_order = False
+        for i_, tk in enumerate(toks):
+            if tk.kind == "PUNCT" and tk.text == "(":
+                depth_ += 1
+            elif tk.kind == "PUNCT" and tk.text == ")":
+                depth_ -= 1
+            elif depth_ == 0 and tk.kind == "WORD" and tk.value == "ORDER":
+                seen_order = True
+            elif depth_ == 0 and tk.kind == "WORD" and tk.value == "OFFSET":
+                mon.count("mssql_offsets_checked")
+                if not seen_order:
+                    mon.violation("%s:offset-without-order-by:%s" % (kind, fam), "OFFSET .. ROWS without an ORDER BY of the statement itself: %r (calls %s)" % (sql[:260], calls))
+                    return True
     b = balanced(toks)
     if b:
         mon.violation("%s:unbalanced:%s" % (kind, fam), "%s in %r" % (b, sql[:200]))
